@@ -231,4 +231,36 @@ static void il_run(struct block *b, struct block *pred, int depth) {
 	}
 	il_unmodelled++;      /* more straight-line blocks than the harness bound */
 }
+/* static control-flow well-formedness of a whole function, executed or not: every jump names a block of the function, every block is
+ * terminated or falls through to a following block, and both sources of every phi are blocks that actually precede it */
+#ifndef IL_CFG_MAXB
+#define IL_CFG_MAXB 48
+#endif
+static bool il_cfg_has(struct block *start, struct block *x) {
+	struct block *b = start;
+	for (int i = 0; i < IL_CFG_MAXB && b; i++, b = b->next) if (b == x) return true;
+	return false;
+}
+static bool il_cfg_pred(struct block *p, struct block *b) {      /* does control flow from p to b? */
+	switch (p->jump.kind) {
+	case JUMP_NONE: return p->next == b;
+	case JUMP_JMP: return p->jump.blk[0] == b;
+	case JUMP_JNZ: return p->jump.blk[0] == b || p->jump.blk[1] == b;
+	default: return false;
+	}
+}
+static int il_cfg_errors(struct block *start) {
+	int err = 0; struct block *b = start;
+	for (int i = 0; i < IL_CFG_MAXB && b; i++, b = b->next) {
+		if (b->jump.kind == JUMP_JMP && !il_cfg_has(start, b->jump.blk[0])) err++;
+		if (b->jump.kind == JUMP_JNZ && (!il_cfg_has(start, b->jump.blk[0]) || !il_cfg_has(start, b->jump.blk[1]) || !b->jump.arg)) err++;
+		if (b->jump.kind == JUMP_NONE && !b->next) err++;                    /* the last block must end in ret/hlt/jmp */
+		if (b->phi.res.kind) {
+			for (int k = 0; k < 2; k++)
+				if (!b->phi.blk[k] || !il_cfg_has(start, b->phi.blk[k]) || !il_cfg_pred(b->phi.blk[k], b) || !b->phi.val[k]) err++;
+		}
+	}
+	if (b) il_unmodelled++;        /* more blocks than the bound */
+	return err;
+}
 #define IL_WELLFORMED() (il_class_errors == 0 && il_undef_uses == 0 && il_unmodelled == 0 && il_redefs == 0)
